@@ -13,8 +13,8 @@ RULE = ('The C12 matrix under the fork backend, but the worker process KILLS ITS
         '(what ProcessExecutor.stop() sends), each with Python-level buffers lost or flushed first, and every line event of the '
         'save path (tracer armed inside run(), so only the child is traced). Per combination all points are enumerated from a '
         'fault-free dry run; Hypothesis adds generated result shapes with drawn kill points. After the kill the on-disk entry is '
-        'classified independently of labtech (absent / complete old|new / empty key dir / metadata incomplete / data incomplete, '
-        'by byte comparison with reference entries), then a fresh Lab is asked: oracle = not is_cached and not listed, or '
+        'classified independently of labtech (absent / complete old|new / metadata in {absent, partial, complete} x data in {absent, '
+        'partial, old, new, mixed}, by byte comparison with reference entries), then a fresh Lab is asked: oracle = not is_cached and not listed, or '
         'is_cached, listed once and run_tasks loads (zero executions) the complete correct value (after overwrite old or new); '
         'the parent run must report the task as failed (died) and terminate. Non-trivial = kill point after the key directory '
         'exists and before the entry is complete on disk. Distinct = hash of case.')
@@ -58,7 +58,7 @@ def enumerate_cases(tier: str) -> list[dict]:
 def check(case: dict) -> core.CaseResult:
     out, disk_class = savefault.run_kill_case(case)
     findings = savefault.judge_kill(case, out, disk_class)
-    nt = out.reached and disk_class in ('empty-keydir', 'metadata-incomplete', 'data-incomplete', 'complete:mixed') or (
+    nt = out.reached and disk_class.startswith('metadata=') or (
         out.reached and bool(case.get('overwrite')) and case['inject'].get('at', 0) > 0)
     labels = [f'inject={case["inject"]["kind"]}', f'signal={case["inject"].get("action")}', f'buffers={case["inject"].get("flavour", "n/a")}',
               f'type={case["type"]}', f'{"overwrite" if case.get("overwrite") else "first-save"}', f'storage={case["storage"]}',
